@@ -159,6 +159,7 @@ FUNCS = {
                   'pkt:CanonicalBlock.payload', 'pkt:CanonicalBlock._pcls', 'pkt:CanonicalBlock.crc_value',
                   'pkt:CanonicalBlock.type_code', 'pkt:CanonicalBlock.block_num', 'pkt:CanonicalBlock.block_flags',
                   'pkt:CanonicalBlock.crc_type', 'pkt:PrimaryBlock.crc_value', 'pkt:PrimaryBlock.bundle_flags',
+                  'pkt:PrimaryBlock._rx_items', 'pkt:CanonicalBlock._rx_items',
                   'pkt:PrimaryBlock.fragment_offset', 'pkt:PrimaryBlock.total_app_data_len', 'pkt:PrimaryBlock.bp_version',
                   'pkt:PrimaryBlock.crc_type', 'pkt:PrimaryBlock.destination', 'pkt:PrimaryBlock.source',
                   'pkt:PrimaryBlock.report_to', 'pkt:PrimaryBlock.create_ts', 'pkt:PrimaryBlock.lifetime',
@@ -246,7 +247,7 @@ FUNCS = {
                   'Ctr.bundle', 'Ctr.status_reason', 'Ctr.route', 'Ctr.sender', 'Ctr._last_block_num', 'Ctr._block_num',
                   'pkt:Bundle.primary', 'pkt:Bundle.blocks', 'pkt:CanonicalBlock.btsd', 'pkt:CanonicalBlock.crc_type',
                   'pkt:CanonicalBlock.crc_value', 'pkt:PrimaryBlock.bundle_flags', 'pkt:PrimaryBlock.crc_type',
-                  'pkt:PrimaryBlock.crc_value', 'ghost.crc_ok'],
+                  'pkt:PrimaryBlock.crc_value', 'pkt:PrimaryBlock._rx_items', 'pkt:CanonicalBlock._rx_items', 'ghost.crc_ok'],
         locals={'reassm': 'Opt[Ref[Reassembly]]'},
         # complete coverage includes octet 0, and the fragment that brought octet 0 was kept as first fragment
         hints=[dict(label='octet_0_is_there', before='del self._reassembly[final_ident]',
